@@ -142,11 +142,14 @@ NearCase(toks) ==
   LET r == RefParse(toks)
   IN IF r.ok THEN [kind |-> "seq", ok |-> TRUE, tree |-> r.node, n |-> Len(toks), texts |-> <<TextSpaced(toks), TextWild(toks)>>]
      ELSE [kind |-> "seq", ok |-> FALSE, at |-> r.at, n |-> Len(toks), texts |-> <<TextSpaced(toks), TextWild(toks)>>, pos |-> <<>>]
+(* (the words `not` and `in` side by side are, as text, the one token `not in`: such sequences have no text of their own) *)
+NotThenIn(toks) == \E i \in 1..(Len(toks) - 1) : toks[i] = TOp("not") /\ toks[i + 1] = TOp("in")
+EmitNearOne(toks) == NotThenIn(toks) \/ PrintT(ToJson(NearCase(toks)))
 EmitNear ==
   (SComplete /\ SEmitMode = "near") =>
     LET toks == Min(STree)
-    IN /\ \A i \in 1..Len(toks) : Len(toks) = 1 \/ PrintT(ToJson(NearCase(DelTok(toks, i))))
-       /\ \A i \in 1..Len(toks) : PrintT(ToJson(NearCase(DupTok(toks, i))))
-       /\ \A i \in 1..(Len(toks) - 1) : PrintT(ToJson(NearCase(SwapTok(toks, i))))
+    IN /\ \A i \in 1..Len(toks) : Len(toks) = 1 \/ EmitNearOne(DelTok(toks, i))
+       /\ \A i \in 1..Len(toks) : EmitNearOne(DupTok(toks, i))
+       /\ \A i \in 1..(Len(toks) - 1) : EmitNearOne(SwapTok(toks, i))
 
 =============================================================================
